@@ -507,6 +507,50 @@ def scenario_regcontrol(rec: Recorder, role: str, rnd: random.Random) -> None:
         rec.recv(b"")
 
 
+def scenario_close_with_pending(rec: Recorder, role: str, rnd: random.Random) -> None:
+    """Output is still queued (nothing or only a part of it drained) when the session is closed by what it receives - the
+    peer's unbind, a notice of disconnection, a protocol violation, garbage - or by its own unbind.  What was queued by
+    successful calls must still come out of data_to_send, exactly once and unchanged."""
+    rec.new(role, "close-with-pending")
+    ids: t.List[int] = []
+    if role == "client":
+        for k in rnd.choice((["extReq"], ["searchReq", "extReq"], ["extReq", "extReq", "searchReq"])):
+            e = rec.call({"op": "send", "k": k})
+            if e["res"] == "ok":
+                ids.append(e["ret"])
+    else:
+        n = rnd.randrange(1, 4)
+        units = [small_unit(rnd.choice(("searchReq", "extReq")), j + 1, rnd, limit=300) for j in range(n)]
+        rec.stream([u[1] for u in units])
+        rec.recv(b"".join(u[0] for u in units))
+        for j, u in enumerate(units):
+            if u[1]["k"] == "searchReq":
+                rec.call({"op": "send", "k": "entry", "id": j + 1})
+                if rnd.random() < 0.5:
+                    rec.call({"op": "send", "k": "done", "id": j + 1})
+            else:
+                rec.call({"op": "send", "k": "extResp", "id": j + 1})
+    if rnd.random() < 0.6:
+        rec.drain(rnd.choice((1, 2, 5, 10, 33)))
+    how = rnd.randrange(5)
+    if how == 0:
+        rec.call({"op": "unbind"})
+    else:
+        if how == 1:
+            unit = unit_of(sess.concrete("unbind", 0, rnd), rnd) if role == "server" else unit_of(sess.concrete("notice", 0, rnd), rnd)
+        elif how == 2:
+            unit = bad_unit(rnd, None)
+        elif how == 3:
+            unit = unit_of(sess.concrete("extReq" if role == "client" else "extResp", 1, rnd), rnd)   # wrong direction
+        else:
+            unit = unit_of(sess.concrete("extResp", 77, rnd), rnd) if role == "client" else bad_unit(rnd, None)
+        rec.stream([unit[1]])
+        rec.recv(unit[0])
+    for amount in rnd.choice(((None,), (3, None), (0, 1, None), (10**9,))):
+        rec.drain(amount)
+    rec.drain(None)
+
+
 def ad_notice(rnd: random.Random) -> t.Tuple[bytes, t.Dict[str, t.Any]]:
     """The NoticeOfDisconnection of MS-ADTS: message id 0, an ExtendedResponse without responseName, and the OID in an
     envelope extension  responseName [10] LDAPOID  after the protocolOp (documented by the library as supported)."""
@@ -724,6 +768,8 @@ def drive(seed: int, n_traces: int) -> t.List[t.Dict[str, t.Any]]:
             scenario_large_then_split(rec, role, rnd)
         if j % 10 == 3:
             scenario_regcontrol(rec, role, rnd)
+        if j % 10 == 8:
+            scenario_close_with_pending(rec, role, rnd)
         if u < 4:
             scenario_stream(rec, role, rnd, garbage_p=0.0, violate_p=0.03)
         elif u < 6:
